@@ -105,22 +105,6 @@ pub proof fn lemma_clash_prefix(d1: Defs, full: Defs, n: Seq<char>, p: ByteIndex
     let (i, j) = choose|i: int, j: int| 0 <= i < j < d1.len() && #[trigger] d1[i] == (n, p) && #[trigger] d1[j] == (n, q);
     assert(full[i] == d1[i] && full[j] == d1[j]);
 }
-pub open spec fn view_set(s: Set<String>) -> Set<Seq<char>> { s.map(|k: String| k@) }
-pub proof fn lemma_view_set_insert(s: Set<String>, key: String)
-    ensures view_set(s.insert(key)) == view_set(s).insert(key@)
-{
-    assert forall|a: Seq<char>| view_set(s.insert(key)).contains(a) <==> view_set(s).insert(key@).contains(a) by {
-        if view_set(s.insert(key)).contains(a) {
-            let k = choose|k: String| s.insert(key).contains(k) && k@ == a;
-            if k != key { assert(s.contains(k)); assert(view_set(s).contains(a)); }
-        }
-        if view_set(s).insert(key@).contains(a) {
-            if a == key@ { assert(s.insert(key).contains(key)); assert(view_set(s.insert(key)).contains(a)); }
-            else { let k = choose|k: String| s.contains(k) && k@ == a; assert(s.insert(key).contains(k)); assert(view_set(s.insert(key)).contains(a)); }
-        }
-    }
-    assert(view_set(s.insert(key)) =~= view_set(s).insert(key@));
-}
 pub proof fn lemma_define_new(m0: Map<String, ByteIndex>, key: String, pos: ByteIndex)
     requires forall|k: String| #[trigger] m0.contains_key(k) ==> k@ != key@
     ensures define_step(m0, m0.insert(key, pos), Ok(()), key@, pos)
